@@ -38,9 +38,21 @@ def api_get_fan_speed_properties (fru : Nat) : Exchange :=
     vals := .ok (setInt (fresh reqGetFanSpeedProperties) 1 fru),
     post := fun v => .ok (.fanProps (intAt v 2) (intAt v 3) (intAt v 4) (n2b (bitAt v 5 1))) }
 
-def api_set_fan_level (fru lvl : Nat) : Exchange :=
-  { req := reqSetFanLevel, rsp := rspSetFanLevel, vals := .ok (setInt (setInt (fresh reqSetFanLevel) 1 fru) 2 lvl),
-    post := fun _ => .ok .unit }
+/-- set_fan_level over the request class `m`: the keyword arguments fill `fru_id` and `fan_level`, every other
+field keeps its creation default -/
+def setFanLevel (m : MsgSpec) (fru lvl : Nat) : Exchange :=
+  { req := m, rsp := rspSetFanLevel, vals := .ok (setInt (setInt (fresh m) 1 fru) 2 lvl), post := fun _ => .ok .unit }
+
+/-- over the GENERATED layout of `SetFanLevelReq` (INTENDED, fixes/C07-12: picmg id, fru_id, fan_level and the
+optional R3.0 byte, absent unless the caller sets it) -/
+def api_set_fan_level (fru lvl : Nat) : Exchange := setFanLevel reqSetFanLevel fru lvl
+
+/-- `SetFanLevelReq` AS SHIPPED: a fourth plain field `extra_byte` that no argument fills - always sent as 00h -/
+def reqSetFanLevelShipped : MsgSpec :=
+  ⟨"SetFanLevelReq", true, 44, 21, some 0, 0, true, false,
+   [⟨"picmg_identifier", .plain, .uint 1, .int 0⟩, ⟨"fru_id", .plain, .uint 1, .int 0⟩,
+    ⟨"fan_level", .plain, .uint 1, .int 0⟩, ⟨"extra_byte", .plain, .uint 1, .int 0⟩]⟩
+def api_set_fan_level_shipped (fru lvl : Nat) : Exchange := setFanLevel reqSetFanLevelShipped fru lvl
 
 def api_get_fan_level (fru : Nat) : Exchange :=
   { req := reqGetFanLevel, rsp := rspGetFanLevel, vals := .ok (setInt (fresh reqGetFanLevel) 1 fru),
@@ -134,7 +146,32 @@ def api_fru_lock_named (idx fru : Nat) : Exchange :=
   | some c => api_set_fru_activation_policy fru c
   | none => .raise (.pyError "AttributeError")
 
-/-- `p.linkType` carries LinkDescriptor.type in its low and .sig_class in its high nibble -/
+/-- set_port_state with `link_descr.type = ty`, `link_descr.sig_class = sc`.  INTENDED (fixes/C07-13): the link type
+byte is `(type | sig_class << 4) & 0xff`, its nibbles go into the members `type` and `sig_class` of the request;
+AS SHIPPED (`shipped`): each attribute goes into its 4-bit member, which cuts a `type` above 15 (TYPE_OEMx) to its
+low nibble -/
+def setPortState (shipped : Bool) (iface ch ty sc : Nat) (p : Port) : Exchange :=
+  let lt := (ty ||| sc * 16) % 256
+  let r := fresh reqSetPortState
+  let r := setBit r 1 0 ch
+  let r := setBit r 1 1 iface
+  let r := setBit r 1 2 (p.flags % 2)
+  let r := setBit r 1 3 (p.flags / 2 % 2)
+  let r := setBit r 1 4 (p.flags / 4 % 2)
+  let r := setBit r 1 5 (p.flags / 8 % 2)
+  let r := setBit r 1 6 (if shipped then ty else lt % 16)
+  let r := setBit r 1 7 (if shipped then sc else lt / 16)
+  let r := setBit r 1 8 p.ext
+  let r := setBit r 1 9 p.grouping
+  let r := setInt r 2 p.state
+  { req := reqSetPortState, rsp := rspSetPortState, vals := .ok r, post := fun _ => .ok .unit }
+
+/-- the whole 8-bit link type in `link_descr.type` (the published TYPE_OEMx constants), `sig_class = 0` -/
+def api_set_port_state_type8 (iface ch : Nat) (p : Port) : Exchange := setPortState false iface ch p.linkType 0 p
+def api_set_port_state_type8_shipped (iface ch : Nat) (p : Port) : Exchange := setPortState true iface ch p.linkType 0 p
+
+/-- `p.linkType` carries LinkDescriptor.type in its low and .sig_class in its high nibble (both below 16: here the
+intended and the as-shipped code send the same request) -/
 def api_set_port_state (iface ch : Nat) (p : Port) : Exchange :=
   let r := fresh reqSetPortState
   let r := setBit r 1 0 ch
@@ -150,14 +187,20 @@ def api_set_port_state (iface ch : Nat) (p : Port) : Exchange :=
   let r := setInt r 2 p.state
   { req := reqSetPortState, rsp := rspSetPortState, vals := .ok r, post := fun _ => .ok .unit }
 
-def getPortState (shipped : Bool) (ch iface : Nat) : Exchange :=
+/-- `splitOem`: AS SHIPPED an OEM link type (upper nibble Fh) comes back as `type` = low nibble, `sig_class` = 15;
+INTENDED (fixes/C07-13) as `type` = the whole byte (TYPE_OEMx), `sig_class` = 0 -/
+def getPortState (shipped : Bool) (ch iface : Nat) (splitOem : Bool := false) : Exchange :=
   { req := reqGetPortState, rsp := rspGetPortState,
     vals := .ok (setBit (setBit (fresh reqGetPortState) 1 0 ch) 1 1 iface),
     post := fun v =>
       match arrAt v 2 with
       | d0 :: d1 :: d2 :: d3 :: d4 :: _ =>
+        let ty := d1 / 16 % 16
+        let sc := d2 % 16
+        let oem := sc == 15 && !splitOem
         .ok (.port (some { channel := d0 % 64, iface := d0 / 64 % 4, flags := d1 % 16,
-                           linkType := d1 / 16 % 16 + 16 * (d2 % 16), ext := d2 / 16 % 16, grouping := d3, state := d4 }))
+                           linkType := if oem then ty ||| 0xf0 else ty, sigClass := if oem then 0 else sc,
+                           ext := d2 / 16 % 16, grouping := d3, state := d4 }))
       | _ => if shipped then .pyError "UnboundLocalError" else .ok (.port none) }
 
 def api_get_port_state := getPortState false
